@@ -154,7 +154,12 @@ def install_sampler_life(rec, step_extra=None):
                     if not self._is_initialized:
                         self.initialize()
                         note_len(self)
-                    rec.emit(self, {"e": "begin", "op": opname, "n": int(n)})
+                    ev = {"e": "begin", "op": opname, "n": int(n), "interval": 0}
+                    if opname == "warmup":
+                        # documented: "Tuning is performed every tune_freq*Nb samples" (at least every sample)
+                        tf = a[0] if a else k.get("tune_freq", 0.1)
+                        ev["interval"] = max(int(tf * n), 1)
+                    rec.emit(self, ev)
                     started = True
                     return orig(self, n, *a, **k)
                 except BaseException:
@@ -194,6 +199,25 @@ def install_sampler_life(rec, step_extra=None):
     for cls in [Sampler] + all_subclasses(Sampler):
         if "step" in cls.__dict__ and not getattr(cls.__dict__["step"], "__isabstractmethod__", False):
             rec.patch(cls, "step", mk_step)
+
+    def mk_tune(orig):
+        def wrapper(self, *a, **k):
+            st = rec.side(self)
+            if st.get("intune", 0):
+                return orig(self, *a, **k)
+            st["intune"] = 1
+            try:
+                return orig(self, *a, **k)
+            finally:
+                st["intune"] = 0
+                skip = a[0] if len(a) > 0 else k.get("skip_len")
+                cnt = a[1] if len(a) > 1 else k.get("update_count")
+                if isinstance(skip, (int, np.integer)) and isinstance(cnt, (int, np.integer)):
+                    rec.emit(self, {"e": "tune", "skip": int(skip), "count": int(cnt), "win": int(rec.side(self).get("win", 0))})
+        return wrapper
+    for cls in [Sampler] + all_subclasses(Sampler):
+        if "tune" in cls.__dict__ and not getattr(cls.__dict__["tune"], "__isabstractmethod__", False):
+            rec.patch(cls, "tune", mk_tune)
 
     def mk_cb(orig):
         def wrapper(self, sample, sample_index):
